@@ -48,7 +48,7 @@ def sym_scope(scope):
     out, cons = {}, []
     for name, (sort, dflt) in scope.items():
         if dflt is None:
-            out[name] = null(sort); continue
+            out[name] = null(); continue      # a name bound to None behaves exactly like the literal None
         if sort == 'int': out[name] = SV('int', z3.Int('scope_' + name))
         elif sort == 'bool': out[name] = SV('bool', z3.Bool('scope_' + name))
         elif sort == 'str':
@@ -70,7 +70,8 @@ def build_query(db, prog):
     if prog.form == 'string':
         q = core.select(prog.src, g, dict(scope))
     elif prog.form == 'generator':
-        gen = eval(prog.src, g, dict(scope))
+        gg = dict(g); gg.update(scope)          # a generator expression cannot see eval()'s locals: names go into its globals
+        gen = eval(prog.src, gg)
         q = core.select(gen)
     else: raise ValueError(prog.form)
     c = prog.chain
